@@ -3,7 +3,9 @@
    SendCommand, loop status, number of recorded positions, recorded moves, current position; finally
    every recorded position.
    input:  <size> <W|B|O> <accept> <instant> <gamestr hex> ; <ops (unused here)> ; <event> ; ...
-   events: L <hex of the server line>-  |  Z  |  A <move> <start ply> <ctx cancelled 0|1>  |  G        *)
+   events: L <hex of the server line>-  |  Z  |  A <move> <start ply> <ctx cancelled 0|1>  |  G
+           LA <hex>- <move> <start ply> <cancelled>: the thinker's answer landed in its channel while the loop was
+           handling that line = the model steps Line and then Answer / Late; one observation for both      *)
 open Common
 
 let bytes_of_hex (h : string) : BinNums.coq_N list =
@@ -29,19 +31,25 @@ let run args =
       L.iter (fun e ->
         let before = !st in
         let note = ref "" in
-        let ev = (match words e with
-          | ["L"; h] -> Bot.Line (BotInst.classify gs (bytes_of_hex h))
-          | ["Z"] -> Bot.Closed
-          | ["G"] -> Bot.Grace
-          | ["A"; m; ply; cancel] ->
-            if cancel = "1" then Bot.Late (parse_move m)
-            else begin
-              (* a thinker whose context is live belongs to the current invocation *)
-              if before.Bot.answered || int_of_z before.Bot.spawned_on.Move.move <> int_of_string ply then note := "!no-such-thinker";
-              Bot.Answer (parse_move m)
-            end
-          | _ -> failwith ("c07 event " ^ e)) in
-        st := BotInst.bot_step sz col fixed accept before ev;
+        let answer_ev st0 m ply cancel =
+          if cancel = "1" then Bot.Late (parse_move m)
+          else begin
+            (* a thinker whose context is live belongs to the current invocation *)
+            if st0.Bot.answered || int_of_z st0.Bot.spawned_on.Move.move <> int_of_string ply then note := "!no-such-thinker";
+            Bot.Answer (parse_move m)
+          end in
+        let stepm s ev = BotInst.bot_step sz col fixed accept s ev in
+        (match words e with
+          | ["L"; h] -> st := stepm before (Bot.Line (BotInst.classify gs (bytes_of_hex h)))
+          | ["LA"; h; m; ply; cancel] ->
+            (* whether the thinker belongs to the current invocation is decided on the state the line was taken in *)
+            let a = answer_ev before m ply cancel in
+            let s1 = stepm before (Bot.Line (BotInst.classify gs (bytes_of_hex h))) in
+            st := stepm s1 a
+          | ["Z"] -> st := stepm before Bot.Closed
+          | ["G"] -> st := stepm before Bot.Grace
+          | ["A"; m; ply; cancel] -> st := stepm before (answer_ev before m ply cancel)
+          | _ -> failwith ("c07 event " ^ e));
         let s = !st in
         (* new sends of this step, in the order the loop makes them *)
         let nb = L.length before.Bot.out and na = L.length s.Bot.out in
